@@ -99,7 +99,7 @@ def meta(tier):
     return {
         'functions': loader.functions_encoded(fns), 'sig': sig, 'level': 'model_checking',
         'bounds': 'TT tensors / matrices of order 1..3 (thorough 6), float32/float64/complex128 tags, built from symbolic cores, by slicing (strided views), by transposition, by TT-SVD of structurally-orthogonal '
-                  'inputs and by rounding (so that the rank list takes the types the real code produces on each path: numpy integers on truncating paths, python ints otherwise)',
+                  'inputs and by rounding (so that the rank list takes the types the real code produces on each path: numpy integers on truncating paths, python ints otherwise); copies (clone/detach/cpu/to) also followed by set_core on the copy',
         'outside': 'the pickle byte format itself (torch.save/load are an in-memory stub that refuses, like torch >= 2.6 with weights_only=True, any object graph containing numpy scalar types); devices other than CPU',
         'assumptions': ['torch.save / torch.load stub described above (validated by replaying on real torch)', 'symtorch validated per run against real torch', 'entry equality decided by z3; metadata compared structurally'],
         'tv_max': 60,
